@@ -465,8 +465,10 @@ def stepShard (st : State) (toks : List String) : State × String :=
         | some nm, some c, some rf => some { name := nm, initialShardCount := c, rf := rf }
         | _, _, _ => none
       | _ => none
-    let sup : Shard.Supplier := fun nc s =>
+    let failk := ((DbProto.kvOf rest "failk").bind (·.toNat?)).getD 0
+    let sup : Shard.Supplier := fun nc s k =>
       if fail.1 ≠ 0 ∧ s.serverIdx % fail.1 = fail.2 then none
+      else if k < 16 ∧ failk.testBit k then none
       else if nc.rf > servers then none
       else some (List.range nc.rf)
     let c' := Shard.applyClusterChanges sup { namespaces := nss, servers := servers } st.cluster
@@ -900,6 +902,10 @@ def stepRepl (st : State) (toks : List String) : State × String :=
   | ["p.cut", i] => match i.toNat? with
     | some i => ({ st with world := { w with cut := if w.cut.contains i then w.cut else w.cut ++ [i] } }, "ok")
     | none => (st, "bad-op")
+  | ["p.failappend", _] =>
+    -- an I/O error in the follower's WAL for the next entry it takes: the stream breaks and the cursor delivers
+    -- again; in settled states nothing is different
+    (st, "ok")
   | ["p.heal", i] => match i.toNat? with
     | some i => ({ st with world := { w with cut := w.cut.filter (· ≠ i) } }, "ok")
     | none => (st, "bad-op")
@@ -987,6 +993,7 @@ def stepCluster (st : State) (toks : List String) : State × String :=
   | ["c.elect", _] => if !st.clusterUp then (st, "bad-op") else (st, "ok")
   | ["c.join"] => if !st.clusterUp then (st, "bad-op") else (st, "ok")
   | ["c.crash", _] => if !st.clusterUp then (st, "bad-op") else (st, "ok")
+  | ["c.failelect", _] => if !st.clusterUp then (st, "bad-op") else (st, "ok")
   | _ => (st, "bad-op")
 
 def step (st : State) (line : String) : State × String :=
